@@ -33,8 +33,8 @@ Proof. exact decode_name_fuel_indep. Qed.
 Print Assumptions C03_decode_name_fuel_irrelevant.
 
 (* 2. bounded work: DESIGN T.2 ([decode_steps]: at most c * (|bs|+1) * 16384 cursor
-      operations) is NOT proved; the hop bound above is the part of it that
-      concerns the recursion depth. *)
+      operations) is proved at the end of this file (section 2', c = 769); the
+      hop bound above is the part of it that concerns the recursion depth. *)
 
 (* 3. every error carries the first two octets as id when they exist, none otherwise *)
 Theorem C03_decode_err_id : forall bs e, decode bs = Err e ->
@@ -115,4 +115,48 @@ Qed.
 Example C03_example_selfloop :
   decode [18; 52; 1; 0; 0; 1; 0; 0; 0; 0; 0; 0; 3; 119; 119; 119; 192; 12; 0; 1; 0; 1]
   = Err (DomainPointerInvalid, Some 4660).
+Proof. vm_compute. reflexivity. Qed.
+
+(* ------------------------------------------------------------------ *)
+(* 2'. bounded work (DESIGN T.2, decode_steps)                          *)
+(* ------------------------------------------------------------------ *)
+From RV Require Import Wire.WireDecodeSteps.
+
+(* [decode_c] (Wire/WireDecodeSteps.v) is the decoder written again with a
+   counter of cursor operations (calls of next_u8 / next_u16 / next_u32 / take,
+   the only primitives that read the buffer); its result component is [decode] *)
+Theorem C03_decode_steps_result : forall bs, fst (decode_c bs) = decode bs.
+Proof. exact decode_c_result. Qed.
+Print Assumptions C03_decode_steps_result.
+
+(* the number of cursor operations of one decoding is at most
+   769 * (|bs| + 1) * 16384: no count field, pointer or label can make the
+   decoder do more work than that *)
+Theorem C03_decode_steps : forall bs, Forall (fun b => b < 256) bs ->
+  snd (decode_c bs) <= 769 * (llen bs + 1) * 16384.
+Proof. exact decode_steps. Qed.
+Print Assumptions C03_decode_steps.
+
+(* the part of it that concerns one name, with no hypothesis at all: a name
+   whose first octet is at [cpos c] costs at most 256 operations (128 label
+   iterations) per nested call and makes at most min (cpos c + 1, hops) calls *)
+Theorem C03_decode_name_steps : forall bs h c,
+  fst (decode_name_c h bs c) = decode_name h bs c
+  /\ snd (decode_name_c h bs c) <= 256 * N.min (cpos c + 1) (N.of_nat h).
+Proof. intros bs h c. split; [apply decode_name_c_fst | apply decode_name_c_cost]. Qed.
+Print Assumptions C03_decode_name_steps.
+
+(* a message that decodes has room for every entry it lists (5 octets at least
+   per question, 11 per record, after the 12 of the header): the four counts
+   cannot make the loops run longer than the input *)
+Theorem C03_decode_ok_sizes : forall bs m, Forall (fun b => b < 256) bs -> decode bs = Ok m ->
+  12 + 5 * llen (m_questions m)
+     + 11 * (llen (m_answers m) + llen (m_authority m) + llen (m_additional m)) <= llen bs.
+Proof. exact decode_ok_sizes. Qed.
+Print Assumptions C03_decode_ok_sizes.
+
+(* the counter on the example message: 7 operations for the header and the
+   counts, 9 for the question (7 of them in its name), 14 and 21 for the two
+   answers (9 each for the owner name: 2 for the pointer, 7 for its target) *)
+Example C03_example_steps : decode_c ex_bytes = (Ok ex_msg, 51).
 Proof. vm_compute. reflexivity. Qed.
